@@ -34,9 +34,14 @@ class VReactor(task.Clock):
     def at(self, t, fn):
         self.external.append([t, fn, False])
 
+    in_iterate = False
+    in_run = False               # inside run(): a pass that crash() interrupted is still finished
+    interrupts_delivered = 0
+
     def interrupt_at(self, t):
         """Deliver SIGINT at virtual time t: invoke whatever handler is installed then."""
         def deliver():
+            self.interrupts_delivered += 1
             h = signal.getsignal(signal.SIGINT)
             if callable(h):
                 h(signal.SIGINT, None)
@@ -73,11 +78,15 @@ class VReactor(task.Clock):
                 break
             f(*a, **kw)
         guard = 0
-        while self.running:
-            guard += 1
-            if guard > 10000:
-                raise Hang("virtual reactor: too many steps")
-            self._step()
+        self.in_run = True
+        try:
+            while self.running:
+                guard += 1
+                if guard > 10000:
+                    raise Hang("virtual reactor: too many steps")
+                self._step()
+        finally:
+            self.in_run = False
 
     def _due_time(self):
         times = [c.getTime() for c in self.calls] + [e[0] for e in self.external if not e[2]]
@@ -120,16 +129,20 @@ class VReactor(task.Clock):
     def iterate(self, delay=0):
         # run what is due right now (used by Spinner._clean)
         n = 0
-        while n < 100:
-            due = [c for c in self.calls if c.getTime() <= self.rightNow]
-            if not due:
-                return
-            c = due[0]
-            self.calls.remove(c)
-            c.called = 1
-            self.fired.append((self.rightNow, c))
-            c.func(*c.args, **c.kw)
-            n += 1
+        self.in_iterate = True       # harness-owned: whatever fires now fires after run() has returned
+        try:
+            while n < 100:
+                due = [c for c in self.calls if c.getTime() <= self.rightNow]
+                if not due:
+                    return
+                c = due[0]
+                self.calls.remove(c)
+                c.called = 1
+                self.fired.append((self.rightNow, c))
+                c.func(*c.args, **c.kw)
+                n += 1
+        finally:
+            self.in_iterate = False
 
     def crash(self):
         self.running = False
